@@ -561,8 +561,9 @@ def eof(ctx, facts, ex):
         ctx.count(bodies=1)
         fin = [bb for bb, idx, s in ex.iter_assigns() if s["r"]["k"] == "agg" and s["r"].get("vn") == "Finished"]
         err = [bb for bb, idx, s in ex.iter_assigns() if s["r"]["k"] == "agg" and s["r"].get("vn") == "Error"]
-        nonempty = [tgt for tgt, f in edge_guards(ex) if (f[0] in ("Gt", "Ne") and is_size(f[1]) and f[2] == ("const", 0)) or (f[0] == "Ge" and is_size(f[1]) and f[2] == ("const", 1))]
-        empty = [tgt for tgt, f in edge_guards(ex) if (f[0] in ("Le", "Eq") and is_size(f[1]) and f[2] == ("const", 0)) or (f[0] == "Lt" and is_size(f[1]) and f[2] == ("const", 1))]
+        egs = inline_size_predicates(facts, ex)
+        nonempty = [tgt for tgt, f in egs if (f[0] in ("Gt", "Ne") and is_size(f[1]) and f[2] == ("const", 0)) or (f[0] == "Ge" and is_size(f[1]) and f[2] == ("const", 1))]
+        empty = [tgt for tgt, f in egs if (f[0] in ("Le", "Eq") and is_size(f[1]) and f[2] == ("const", 0)) or (f[0] == "Lt" and is_size(f[1]) and f[2] == ("const", 1))]
         dom = ex.dominators()
         ok = bool(fin) and bool(nonempty) and bool(empty) and all(any(flow.dominates(dom, e_, f) for e_ in empty) for f in fin) and not any(f in ex.reachable(n) for n in nonempty for f in fin)
         ctx.ob("EOF", "extend:finished-only-if-empty", ok, "end of input with bytes left over is never `Finished`" if ok else "BufDeque::extend can report Finished while bytes are still buffered: a truncated trailing record is silently dropped", site_of(ex, fin[0]) if fin else site_of(ex))
@@ -621,6 +622,24 @@ def eof(ctx, facts, ex):
                 if (F.callee(t)[0] or "").endswith("take_next") and flow.dominates(dom, g[2][0], bb):
                     flush = True
         ctx.ob("EOF", "BufferedBytesStream:tail-is-flushed", flush, "upstream done + bytes buffered => they are emitted" if flush else "the buffered tail is not emitted when the upstream ends", site_of(bb_))
+
+
+def inline_size_predicates(facts, b):
+    """edge facts of b, with a boolean helper call `self.pred()` on the BufDeque replaced by the comparison of
+    buffered_size that the helper returns (one level of inlining; helpers that look at anything else stay opaque)"""
+    NEG = {"Lt": "Ge", "Le": "Gt", "Gt": "Le", "Ge": "Lt", "Eq": "Ne", "Ne": "Eq"}
+    out = []
+    for tgt, f in edge_guards(b):
+        if f[0] in ("true", "false") and f[1][0] == "call" and f[1][1].startswith(BD) and f[1][2] and flow.strip_casts(f[1][2][0]) in (("arg", 1), ("ref", ("arg", 1))):
+            cb = facts.bodies.get(f[1][1])
+            if cb is not None:
+                e = flow.strip_casts(flow.expr_of(cb, {"cp": [0]}, max_depth=20))
+                if e[0] == "bin" and e[1] in NEG and is_size(flow.strip_casts(e[2])):
+                    op = e[1] if f[0] == "true" else NEG[e[1]]
+                    out.append((tgt, (op, flow.strip_casts(e[2]), flow.strip_casts(e[3]))))
+                    continue
+        out.append((tgt, f))
+    return out
 
 
 def back_edges_targets(b):
